@@ -22,4 +22,5 @@ def plan(tier, seed):
     units = [Unit('C17-gxx-%d' % i, 'gxx', 'props/C17.h', part, rc_cases=cases, enum_max=2 ** 24, chunk=2, tick_limit=100000)
              for i, part in enumerate(split(regs, 9))]
     units.append(Unit('C17-clang', 'clang', 'props/C17.h', regs[:4], rc_cases=cases, enum_max=2 ** 24, chunk=2, tick_limit=100000))
-    return dict(units=units, rule=RULE, assumptions=['termination is approximated by a bound of 1e5 iterations of the search loop (it normally needs < 200)'])
+    from .common import with_fuzz
+    return with_fuzz(dict(units=units, rule=RULE, assumptions=['termination is approximated by a bound of 1e5 iterations of the search loop (it normally needs < 200)']), 'C17', 'props/C17.h', regs[::2][:6], tier, 60000, 3000000, max_len=66, chunk=2, tick_limit=100000)
